@@ -301,6 +301,7 @@ class Interp:
         # to fresh Booleans) instead of aborting; used for decision skeletons whose side computations (metrics, response
         # building) do not matter. Every opaque symbol met is recorded in self.opaque_seen (reported in evidence).
         self.cur_file = [None]
+        self.concretizer = None  # optional callable(interp, term) -> int: forks over the feasible values of a term needed as a number
         self.call_type = None
         self.let_type = None
         self.lenient = False
@@ -600,6 +601,10 @@ class Interp:
             for x, y in zip(pa, pb):
                 r = self.land(r, self.eq(x, y))
             return r
+        if isinstance(a, list) and isinstance(b, str):
+            b = list(b.encode())
+        if isinstance(b, list) and isinstance(a, str):
+            a = list(a.encode())
         if isinstance(a, (tuple, list)) and isinstance(b, (tuple, list)):
             if len(a) != len(b):
                 return False
@@ -846,6 +851,8 @@ class Interp:
     def ev_index(self, e, env):
         v = self.eval(e[1], env)
         i = self.eval(e[2], env)
+        if is_sym(i) and self.concretizer:
+            i = self.concretizer(self, i)
         if is_sym(i):
             raise Unsupported("symbolic index")
         if isinstance(v, (list, tuple, str)):
@@ -985,6 +992,8 @@ class Interp:
         elif k == "index":
             obj = self.eval(lhs[1], env)
             i = self.eval(lhs[2], env)
+            if is_sym(i) and self.concretizer:
+                i = self.concretizer(self, i)
             if is_sym(i):
                 raise Unsupported("symbolic index assignment")
             obj[i] = v
@@ -1014,6 +1023,11 @@ class Interp:
             return ""
         if base in ("Arc", "Box", "Rc") and "<" in t:
             return self.default_of_type(t[t.index("<") + 1:-1])
+        if base == "Cow":
+            return "" if "str" in t else []
+        if (base, "default") in self.prog.methods:
+            # an explicit `impl Default`
+            return self._invoke(self.prog.methods[(base, "default")], [], self_ty=base)
         if base in self.prog.structs and self.prog.structs[base]:
             return Struct(base, {f: self.default_of_type(fty) for f, fty in self.prog.structs[base]})
         if self.lenient:
@@ -1038,9 +1052,15 @@ class Interp:
                 else:
                     new_fields.append((fname, fe))
             if base is not None and self._is_default_call(base):
-                for f, fty in self.prog.structs[sname]:
-                    if f not in vals and f not in dict(new_fields):
-                        vals[f] = self.default_of_type(fty)
+                if (sname, "default") in self.prog.methods:
+                    dv = self._invoke(self.prog.methods[(sname, "default")], [], self_ty=sname)
+                    for f in dv:
+                        if f not in vals and f not in dict(new_fields):
+                            vals[f] = dv[f]
+                else:
+                    for f, fty in self.prog.structs[sname]:
+                        if f not in vals and f not in dict(new_fields):
+                            vals[f] = self.default_of_type(fty)
                 base = None
             fields = new_fields
         if base is not None:
@@ -1070,6 +1090,8 @@ class Interp:
     def ev_repeat(self, e, env):
         v = self.eval(e[1], env)
         n = self.eval(e[2], env)
+        if is_sym(n) and self.concretizer:
+            n = self.concretizer(self, n)
         if is_sym(n):
             raise Unsupported("symbolic repeat count")
         return [v for _ in range(n)]
@@ -1077,6 +1099,9 @@ class Interp:
     def ev_range(self, e, env):
         lo = self.eval(e[1], env) if e[1] is not None else None
         hi = self.eval(e[2], env) if e[2] is not None else None
+        if (is_sym(lo) or is_sym(hi)) and self.concretizer:
+            lo = self.concretizer(self, lo) if is_sym(lo) else lo
+            hi = self.concretizer(self, hi) if is_sym(hi) else hi
         if is_sym(lo) or is_sym(hi):
             raise Unsupported("symbolic range bound")
         if hi is not None and e[3]:
@@ -1637,6 +1662,23 @@ class Interp:
         if name == "extend":
             recv.extend(self.iterate(args[0]))
             return ()
+        if name == "binary_search_by_key":
+            key, f = args
+            lo, hi = 0, len(recv)
+            # keys are concrete in the scenarios that use it (index entries of a log file)
+            for i, x in enumerate(recv):
+                kx = self.call_value(f, [x])
+                c = self.eq(kx, key)
+                if isinstance(c, bool) and c:
+                    return Ok(i)
+                if not isinstance(c, bool):
+                    raise Unsupported("binary search over symbolic keys")
+                lt = self.cmp("<", kx, key)
+                if not isinstance(lt, bool):
+                    raise Unsupported("binary search over symbolic keys")
+                if not lt:
+                    return Err(i)
+            return Err(len(recv))
         if name == "zip":
             other = self.iterate(args[0])
             return [(a, b) for a, b in zip(recv, other)]
